@@ -572,13 +572,36 @@ fn select_level(run: &mut Run, rng: &mut Rng, n: usize) {
 
 pub fn tz_child(seed: u64, n: usize) {
     use chrono::{Datelike, Local, TimeZone, Timelike};
+    use chrono::NaiveDate;
     let mut rng = Rng::new(seed ^ 0x037a);
     let mut checks = 0usize;
-    for _ in 0..n {
-        // instants spread over several years, denser around the usual switch-over months
-        let base = 1_500_000_000i64 + rng.range(0, 250_000_000);
-        let secs = if rng.chance(1, 3) { base - base % 86_400 + rng.range(-7_200, 7_200) } else { base };
-        let ts = match Local.timestamp_opt(secs, (rng.below(3) as u32) * 500_000_000 % 1_000_000_000).single() { Some(t) => t, None => continue };
+    // the local clock times that do not exist (DST gaps) in 2015..2026, at quarter-hour resolution
+    let mut gaps: Vec<chrono::NaiveDateTime> = Vec::new();
+    let mut day = NaiveDate::from_ymd_opt(2015, 1, 1).unwrap();
+    while day.year() < 2026 {
+        for q in 0..96u32 {
+            let t = day.and_hms_opt(q / 4, (q % 4) * 15, 7).unwrap();
+            if let chrono::LocalResult::None = Local.from_local_datetime(&t) { gaps.push(t); }
+        }
+        day = day.succ_opt().unwrap();
+    }
+    for i in 0..n {
+        // instants spread over several years, denser around the usual switch-over months; every other case is aimed at a
+        // gap: the same clock time on another day of that month, or another hour of that day with the gap's minutes
+        let ts = if i % 2 == 1 && !gaps.is_empty() {
+            let g = *rng.pick(&gaps);
+            let cand = if rng.chance(1, 2) {
+                NaiveDate::from_ymd_opt(g.year(), g.month(), 1 + rng.below(28) as u32).map(|d| d.and_time(g.time()))
+            } else {
+                g.date().and_hms_opt(rng.below(24) as u32, g.minute(), g.second())
+            };
+            match cand.and_then(|c| Local.from_local_datetime(&c).single()) { Some(t) => t, None => continue }
+        } else {
+            let base = 1_500_000_000i64 + rng.range(0, 250_000_000);
+            let secs = if rng.chance(1, 3) { base - base % 86_400 + rng.range(-7_200, 7_200) } else { base };
+            match Local.timestamp_opt(secs, (rng.below(3) as u32) * 500_000_000 % 1_000_000_000).single() { Some(t) => t, None => continue }
+        };
+        let secs = ts.timestamp();
         let part = *rng.pick(&["year", "month", "day"]);
         let e = call(Function::TruncateTimestamp, vec![ExpressionTree::Value(Value::String(part.to_owned())), ExpressionTree::Value(Value::Timestamp(ts))]);
         checks += 1;
